@@ -12,7 +12,7 @@ import (
 // the original by the real differ in both directions; marshalling the result
 // again must give the same bytes.
 
-var verifStrings = []string{"x", "it's", "a\"b", "back\\slash", "${v}", "%{if}", "two words", "multi\nline", ""}
+var verifStrings = []string{"x", "it's", "a\"b", "back\\slash", "${v}", "%{if}", "two words", "multi\nline", "", " ", " lead", "trail "}
 
 // verifDocSchema builds the schema of one family: part 0 varies the type of
 // column c over the catalogue (and its nullability), part 1 the strings that
@@ -147,6 +147,11 @@ func verifDocSchema(part int) *schema.Schema {
 				}
 			}
 			t0.AddChecks(ck)
+			// unnamed checks, possibly several of them (they all share the empty name)
+			nun := verifChoice("unnamed", 3)
+			for k := 0; k < nun; k++ {
+				t0.AddChecks(schema.NewCheck().SetExpr([]string{"(`n` < 100)", "(`n` <> 7)"}[k]))
+			}
 		}
 	}
 	s.AddTables(t1, t0)
